@@ -29,14 +29,15 @@ type FullCfg struct {
 }
 
 func genFull(r *Rng) *FullCfg {
-	c := &FullCfg{Kind: []string{"hmm", "mixture"}[r.Intn(2)], Steps: r.Range(1, 3)}
+	c := &FullCfg{Kind: []string{"hmm", "mixture", "hmm-poisson", "mixture-poisson"}[r.Intn(4)], Steps: r.Range(1, 3)}
 	ns := []int{1, 2, 3, 5, 9}[r.Intn(5)]
-	if c.Kind == "mixture" {
+	poisson := c.Kind == "hmm-poisson" || c.Kind == "mixture-poisson"
+	if c.Kind == "mixture" || c.Kind == "mixture-poisson" {
 		ns = 1
 	}
 	for s := 0; s < ns; s++ {
 		l := r.Range(2, 7)
-		if c.Kind == "mixture" {
+		if ns == 1 && c.Kind != "hmm" && c.Kind != "hmm-poisson" {
 			l = []int{3, 5, 8, 12, 17}[r.Intn(5)]
 		}
 		seq := make([]float64, l)
@@ -46,6 +47,13 @@ func genFull(r *Rng) *FullCfg {
 				base = 3.0
 			}
 			seq[i] = base + dy(r, -1, 1, 4)
+			if poisson {
+				// counts: emission distributions with internal scratch state (PoissonDistribution.t)
+				seq[i] = float64(r.Range(0, 3))
+				if r.Bool() {
+					seq[i] = float64(r.Range(5, 12))
+				}
+			}
 		}
 		c.Seqs = append(c.Seqs, seq)
 	}
@@ -64,11 +72,19 @@ func runFull(cfg *FullCfg, pc PoolCfg) (par []float64, errd bool, panicked strin
 	e2, _ := scalarEstimator.NewNormalEstimator(2.0, 2.0, 1e-4)
 	var p ad.Vector
 	var aerr error
-	switch cfg.Kind {
+	var s1, s2 statistics.ScalarEstimator = e1, e2
+	kind := cfg.Kind
+	if kind == "hmm-poisson" || kind == "mixture-poisson" {
+		p1, _ := scalarEstimator.NewPoissonEstimator(1.5)
+		p2, _ := scalarEstimator.NewPoissonEstimator(7.0)
+		s1, s2 = p1, p2
+		kind = kind[:len(kind)-8]
+	}
+	switch kind {
 	case "hmm":
 		pi := ad.NewDenseFloat64Vector([]float64{0.6, 0.4})
 		tr := ad.NewDenseFloat64Matrix([]float64{0.7, 0.3, 0.4, 0.6}, 2, 2)
-		est, err := vectorEstimator.NewHmmEstimator(pi, tr, nil, nil, nil, []statistics.ScalarEstimator{e1, e2}, 0.0, cfg.Steps)
+		est, err := vectorEstimator.NewHmmEstimator(pi, tr, nil, nil, nil, []statistics.ScalarEstimator{s1, s2}, 0.0, cfg.Steps)
 		if err != nil {
 			panic(err)
 		}
@@ -79,7 +95,7 @@ func runFull(cfg *FullCfg, pc PoolCfg) (par []float64, errd bool, panicked strin
 		inPool(pool, pc.Nested, func(q tp.ThreadPool) { aerr = est.EstimateOnData(xs, nil, q) })
 		p = est.GetParameters()
 	case "mixture":
-		est, err := scalarEstimator.NewMixtureEstimator([]float64{0.5, 0.5}, []statistics.ScalarEstimator{e1, e2}, 0.0, cfg.Steps)
+		est, err := scalarEstimator.NewMixtureEstimator([]float64{0.5, 0.5}, []statistics.ScalarEstimator{s1, s2}, 0.0, cfg.Steps)
 		if err != nil {
 			panic(err)
 		}
@@ -240,6 +256,10 @@ func raceMain(o Opts) {
 		pc := genPool(r)
 		gmp := []int{1, 2, 4, 16}[r.Intn(4)]
 		runtime.GOMAXPROCS(gmp)
+		// marker for the driver: race reports printed after this line belong to this configuration
+		if cb, err := json.Marshal(map[string]interface{}{"config": c, "pool": pc, "gomaxprocs": gmp}); err == nil {
+			fmt.Fprintf(os.Stderr, "@@C17CFG %s\n", cb)
+		}
 		msg := c.oracle(pc, 20*time.Second)
 		hist[c.Site]++
 		hist[fmt.Sprintf("gomaxprocs=%d", gmp)]++
